@@ -43,6 +43,10 @@ pub fn spec(prop: &str) -> Option<Spec> {
         "C11" => s("C11", Engine::Core, (600_000, 200_000), (30_000_000, 10_000_000), "seeded core histories, engine audit after every action; non-trivial = at least ten audits ran over a graph in which a bind switched or a node became unnecessary; distinct = distinct recompute-order sequence"),
         "C12" => s("C12", Engine::Core, (600_000, 200_000), (30_000_000, 10_000_000), "seeded core histories ending in a random-permutation teardown; non-trivial = teardown interleaved with stabilises over a graph with binds or vars dropped mid-run; distinct = distinct recompute-order sequence"),
         "C13" => Spec { prop: "C13", engine: Engine::Core, level: "fault_enumeration", quick: (60_000, 20_000), thorough: (3_000_000, 1_000_000), crash_enumeration: true, rule: "seeded core histories; for each, a panic is injected at every individual user-function invocation reached inside stabilise (exhaustive per history); evaluations counts injected runs; non-trivial = crash point with at least one node already recomputed in that round; distinct = distinct (history, crash point)" },
+        "C14" => s("C14", Engine::Expert, (400_000, 150_000), (20_000_000, 8_000_000), "seeded histories over expert-API join, bind and dynamic-sum constructions (shared, duplicate and bind-created invalidatable children); non-trivial = a dependency on an invalidated child was removed or one of two dependencies on the same child was removed; distinct = distinct sequence of add/remove/recompute events"),
+        "C15" => s("C15", Engine::Map, (400_000, 150_000), (20_000_000, 8_000_000), "seeded edit histories (insert, remove, change, clear, refill, no-op write, unobserve/re-observe) for each diff-based operator x map type; non-trivial = the operator was re-observed after edits, or its input was emptied or refilled; distinct = distinct (operator, map type, per-round user-function call pattern)"),
+        "C16" => s("C16", Engine::Map, (300_000, 100_000), (15_000_000, 5_000_000), "seeded edit histories for incr_(filter_)mapi_(_cutoff) on BTreeMap and OrdMap with five per-key function families and an outer variable; non-trivial = re-observed after edits, emptied or refilled; distinct = distinct (operator, map type, per-round call pattern)"),
+        "C17" => s("C17", Engine::Map, (400_000, 150_000), (20_000_000, 8_000_000), "seeded edit histories with instrumented user functions logging (round, key, role); non-trivial = a round whose diff was a strict non-empty subset of the keys; distinct = distinct (operator, map type, per-round call pattern)"),
         "C20" => s("C20", Engine::Core, (600_000, 200_000), (30_000_000, 10_000_000), "seeded core histories with memoised constructors called from top level and from bind closures; non-trivial = a memoised call hit a live node and another call re-created a dropped one; distinct = distinct recompute-order sequence"),
         _ => return None,
     })
@@ -180,6 +184,9 @@ pub fn trigger(prop: &str, out: &RunOutput) -> bool {
         "C11" => c.audits >= 10 && (c.bind_switches > 0 || probe(out, "RemovedFromHeapUnnecessary") > 0),
         "C12" => c.rounds >= 2,
         "C13" => out.injected_panic.is_some(),
+        "C14" => c.bind_switches > 0 || c.reobserved > 0,
+        "C15" | "C16" => c.reobserved > 0 || c.bind_switches > 0,
+        "C17" => c.may_run_only > 0,
         "C20" => c.memo_hits > 0 && c.memo_recreated > 0,
         _ => true,
     }
